@@ -142,14 +142,16 @@ class C13(SessionCheck):
                 nobj = max(nobj, idx + 1)
                 nosub = len(ev) > 2 and ev[2] == 1
                 count[idx] = 0 if nosub else 1
-                fresh[idx] = True
+                # (a reward observer constructed in the middle of an episode reads the makespan reached so far: it is
+                # fresh for a later subscription only if it is reset, as a subscriber, before)
+                fresh[idx] = not started
                 clean[idx] = (not started) and not nosub
             elif t == 6 and ok:
                 idx = o[1]
                 if idx >= nobj:
                     nobj = idx + 1
                     count[idx] = 1
-                    fresh[idx] = True
+                    fresh[idx] = not started
                     clean[idx] = not started
             elif t == 5 and ok:
                 idx = ev[1]
